@@ -409,23 +409,30 @@ class Harness:
                 hooks.emit("sigint.send")
                 os.kill(os.getpid(), signal.SIGINT)
             elif o == "second_accept":
-                def acc2():
+                self.nrunner = getattr(self, "nrunner", 1) + 1
+                rn = self.nrunner
+
+                def acc2(rn=rn):
                     r2 = self.SR(accept_delay=0.02)
                     self.runtime2 = r2
-                    hooks.emit("accept.call", r=2)
+                    hooks.emit("accept.call", r=rn)
                     try:
                         r2.accept()
                     except BaseException as e:  # noqa
-                        hooks.emit("accept.ret", r=2, outcome="raised", exc=type(e).__name__, cause_p="", cause_kind="")
+                        hooks.emit("accept.ret", r=rn, outcome="raised", exc=type(e).__name__, cause_p="", cause_kind="")
                     else:
-                        hooks.emit("accept.ret", r=2, outcome="returned", exc="", cause_p="", cause_kind="")
+                        hooks.emit("accept.ret", r=rn, outcome="returned", exc="", cause_p="", cause_kind="")
                 t = self.helper(acc2, "accept2")
                 t.join(op.get("timeout", 1.0))
             elif o == "shutdown2":
                 if self.runtime2 is not None:
-                    hooks.emit("shutdown.call", ctx="thread2")
-                    self.runtime2.shutdown()
-                    hooks.emit("shutdown.ret", ok=True, exc="")
+                    hooks.emit("shutdown2.call")
+                    try:
+                        self.runtime2.shutdown()
+                    except BaseException as e:  # noqa
+                        hooks.emit("shutdown2.ret", ok=False, exc=type(e).__name__)
+                    else:
+                        hooks.emit("shutdown2.ret", ok=True, exc="")
             elif o == "sleep":
                 time.sleep(op["ms"] / 1000.0)
             elif o == "polls":
@@ -445,6 +452,22 @@ class Harness:
                     hooks.emit("timeout", what="park:" + op["point"])
             elif o == "release":
                 hooks.release(op["point"])
+            elif o == "race_adopts":
+                # several threads adopt at (as nearly as possible) the same instant, optionally
+                # together with the main thread entering accept()
+                go = threading.Event()
+                ths = []
+                for pid in op["ps"]:
+                    def one(pid=pid):
+                        go.wait()
+                        self.do_adopt(pid, "thread")
+                    ths.append(self.helper(one, "racer-" + pid))
+                time.sleep(0.005)
+                go.set()
+                if op.get("with_accept"):
+                    self.accept_go.set()
+                for t in ths:
+                    t.join(3.0)
             elif o == "bg":
                 # run the nested op in a helper thread without waiting (e.g. an adopt that will park)
                 inner = op["inner"]
